@@ -129,6 +129,8 @@ pub fn take<
 where
     S: Into<Arc<Source<T>>>,
 {
+    #[cfg(callbag_verif)]
+    use crate::verif_hooks::{AtomicBool, AtomicUsize};
     #[cfg(feature = "tracing")]
     let take_fn_span = Span::current();
     Box::new(move |source| {
